@@ -17,9 +17,9 @@ import (
 	"io"
 	"os"
 	"path/filepath"
+	"runtime/debug"
 	"sort"
 	"strings"
-	"runtime/debug"
 	"sync"
 	"time"
 
@@ -60,13 +60,15 @@ type Ent struct {
 }
 
 type Op struct {
-	Op     string    `json:"op"`             // read prefetch evict evictall par grow
-	File   int       `json:"file,omitempty"` // index into the sorted list of regular files (modulo its length)
-	Off    int64     `json:"off,omitempty"`
-	Len    int64     `json:"len,omitempty"`
-	Pick   []int     `json:"pick,omitempty"` // evict: indexes into the list of all chunk keys (modulo its length)
-	Reopen bool      `json:"reopen,omitempty"`
-	Par    []ParRead `json:"par,omitempty"` // par: reads issued concurrently
+	Op      string    `json:"op"`             // read prefetch evict evictall par grow pt
+	File    int       `json:"file,omitempty"` // index into the sorted list of regular files (modulo its length)
+	Off     int64     `json:"off,omitempty"`
+	Len     int64     `json:"len,omitempty"`
+	Pick    []int     `json:"pick,omitempty"` // evict: indexes into the list of all chunk keys (modulo its length)
+	Reopen  bool      `json:"reopen,omitempty"`
+	Par     []ParRead `json:"par,omitempty"`     // par: reads issued concurrently
+	Mbs     int64     `json:"mbs,omitempty"`     // pt: merge buffer size
+	Workers int       `json:"workers,omitempty"` // pt: merge worker count
 }
 
 type ParRead struct {
@@ -330,6 +332,15 @@ func attrEqual(a, b metadata.Attr) bool {
 	return true
 }
 
+// normAttr: "zero NumLink means one" (fs/layer entryToAttr). The db store does not record a link count of one and
+// hands out 0 for it; the memory store hands out 1. Both are served as st_nlink 1.
+func normAttr(a metadata.Attr) metadata.Attr {
+	if a.NumLink == 0 {
+		a.NumLink = 1
+	}
+	return a
+}
+
 func isLandmark(p string) bool {
 	return p == estargz.PrefetchLandmark || p == estargz.NoPrefetchLandmark
 }
@@ -343,7 +354,7 @@ func walk(mr metadata.Reader, problems *[]string) []ONode {
 		*problems = append(*problems, "GetAttr(root) failed")
 		return nil
 	}
-	out = append(out, ONode{Path: "", ID: mr.RootID(), Attr: rootAttr})
+	out = append(out, ONode{Path: "", ID: mr.RootID(), Attr: normAttr(rootAttr)})
 	var rec func(dir string, id uint32, depth int)
 	rec = func(dir string, id uint32, depth int) {
 		if depth > 64 {
@@ -390,13 +401,13 @@ func walk(mr metadata.Reader, problems *[]string) []ONode {
 			lid, la, err := mr.GetChild(id, c.name)
 			if err != nil {
 				*problems = append(*problems, "listed child cannot be looked up: "+p)
-			} else if lid != c.id || !attrEqual(la, a) {
+			} else if lid != c.id || !attrEqual(normAttr(la), normAttr(a)) {
 				*problems = append(*problems, "lookup and listing+getattr disagree for "+p)
 			}
 			if c.mode != a.Mode {
 				*problems = append(*problems, "mode given by the listing differs from the attribute mode for "+p)
 			}
-			out = append(out, ONode{Path: p, ID: c.id, Attr: a})
+			out = append(out, ONode{Path: p, ID: c.id, Attr: normAttr(a)})
 			if a.Mode.IsDir() {
 				rec(p, c.id, depth+1)
 			}
@@ -429,14 +440,17 @@ type fileInfo struct {
 }
 
 type readOut struct {
-	isRead bool
-	f      int
-	off, n int64
-	data   []byte
-	err    bool
-	pnc    bool
-	trace  []string // Coq events
-	par    bool     // issued concurrently with other reads: oracle only
+	isRead  bool
+	f       int
+	off, n  int64
+	data    []byte
+	err     bool
+	pnc     bool
+	trace   []string // Coq events
+	par     bool     // issued concurrently with other reads: oracle only
+	pt      bool     // the merged passthrough file: oracle only
+	mbs     int64
+	workers int
 }
 
 type serveObs struct {
@@ -447,6 +461,7 @@ type serveObs struct {
 	outs       []readOut
 	par        []readOut
 	fwd        bool
+	lateDirs   map[string]int // db store: parent path -> number of its sub-directories whose entry follows an entry below them
 	problems   []string
 	stats      map[string]int
 }
@@ -493,6 +508,9 @@ func execServe(st Store, c Case, tmpRoot string) (obs serveObs) {
 		toc = estargz.VerifTOCEntriesC02(er)
 	}
 	obs.fwd = forwardHardlink(c, toc)
+	if st.Name == "db" {
+		obs.lateDirs = lateDirs(toc)
+	}
 	sdir := filepath.Join(tmpRoot, "store")
 	os.RemoveAll(sdir)
 	if err := os.MkdirAll(sdir, 0o755); err != nil {
@@ -688,6 +706,48 @@ func execServe(st Store, c Case, tmpRoot string) (obs serveObs) {
 				}
 				obs.stats["op.grow"]++
 			}
+		case "pt":
+			// FUSE passthrough: the whole file merged into one cache entry (GetPassthroughFd), sequential or batched path
+			// depending on the merge buffer size. Needs a cache that hands out *os.File: the direct directory cache.
+			if len(obs.files) == 0 || c.Cache != "dirdirect" {
+				continue
+			}
+			f := o.File % len(obs.files)
+			po := readOut{isRead: true, f: f, off: 0, n: obs.files[f].size, pt: true, mbs: o.Mbs, workers: o.Workers}
+			func() {
+				defer func() {
+					if r := recover(); r != nil {
+						po.pnc = true
+					}
+				}()
+				h, err := gr.OpenFile(obs.files[f].id)
+				if err != nil {
+					po.err = true
+					return
+				}
+				g, ok := h.(reader.PassthroughFdGetter)
+				if !ok {
+					po.err = true
+					return
+				}
+				_, cr, err := g.GetPassthroughFd(o.Mbs, o.Workers)
+				if err != nil {
+					po.err = true
+					return
+				}
+				defer cr.Close()
+				b, err := io.ReadAll(io.NewSectionReader(cr.GetReaderAt(), 0, 1<<30))
+				if err != nil {
+					po.err = true
+					return
+				}
+				po.data = b
+			}()
+			obs.par = append(obs.par, po)
+			obs.stats["op.pt"]++
+			if len(obs.files[f].chunks) > 1 {
+				obs.stats["pt.multichunk"]++
+			}
 		case "par":
 			// concurrent readers (searched by the oracle only; the cache state afterwards is not predicted, so this op
 			// is used with the directory caches, whose answers are replayed from observation)
@@ -840,14 +900,28 @@ func execServe(st Store, c Case, tmpRoot string) (obs serveObs) {
 		}
 	}()
 	// detach what is reported from the store's memory (the store is closed before the oracle runs)
-	for i := range obs.view {
-		if xs := obs.view[i].Attr.Xattrs; xs != nil {
-			cp := make(map[string][]byte, len(xs))
-			for k, v := range xs {
-				cp[k] = append([]byte{}, v...)
+	detach := func(view []ONode) (ok bool) {
+		defer debug.SetPanicOnFault(debug.SetPanicOnFault(true))
+		defer func() {
+			if r := recover(); r != nil {
+				ok = false
 			}
-			obs.view[i].Attr.Xattrs = cp
+		}()
+		for i := range view {
+			if xs := view[i].Attr.Xattrs; xs != nil {
+				cp := make(map[string][]byte, len(xs))
+				for k, v := range xs {
+					cp[k] = append([]byte{}, v...)
+				}
+				view[i].Attr.Xattrs = cp
+			}
 		}
+		return true
+	}
+	if !detach(obs.view) {
+		obs.problems = append(obs.problems, "attributes (xattr values) returned before the history are no longer readable after it: memory fault")
+		obs.view = after
+		detach(obs.view)
 	}
 	return
 }
@@ -1011,7 +1085,12 @@ func coqServe(st Store, c Case, obs serveObs) string {
 		}
 		outs[i] = fmt.Sprintf("Some (%s, %s)", r, hx.CoqList(o.trace))
 	}
-	return fmt.Sprintf("CServe %s %s %s %d%%Z %s %s %s %s %s", hx.CoqBool(st.Name == "db"), hx.CoqBool(obs.fwd), hx.CoqList(tar), effChunkSize(c.ChunkSize), hx.CoqList(files), hx.CoqList(chunks), view,
+	var late []string
+	for p, n := range obs.lateDirs {
+		late = append(late, fmt.Sprintf("(%s, %d%%Z)", coqPath(p), n))
+	}
+	sort.Strings(late)
+	return fmt.Sprintf("CServe %s %s %s %s %d%%Z %s %s %s %s %s", hx.CoqBool(st.Name == "db"), hx.CoqBool(obs.fwd), hx.CoqList(late), hx.CoqList(tar), effChunkSize(c.ChunkSize), hx.CoqList(files), hx.CoqList(chunks), view,
 		hx.CoqList(obs.coqOps), hx.CoqList(outs))
 }
 
@@ -1064,7 +1143,8 @@ func Main(st Store) {
 		default:
 			obs := execServe(st, c, tmpRoot)
 			problems := append([]string{}, obs.problems...)
-			problems = append(problems, oracleServe(st, c, obs, ctx)...)
+			op, findings := oracleServe(st, c, obs, ctx)
+			problems = append(problems, op...)
 			ctx.Count("kind.serve")
 			ctx.Count("cache." + c.Cache)
 			if c.Zstd {
@@ -1096,6 +1176,13 @@ func Main(st Store) {
 				if !seen[p] {
 					seen[p] = true
 					ctx.Violation(id, p, nil)
+				}
+			}
+			for _, f := range findings {
+				if !seen[f[0]] {
+					seen[f[0]] = true
+					ctx.Count("finding." + f[0])
+					ctx.Finding(id, f[0], f[1], nil)
 				}
 			}
 		}
@@ -1156,4 +1243,26 @@ func forwardHardlink(c Case, toc []estargz.VerifTOCEntryC02) bool {
 		}
 	}
 	return false
+}
+
+// lateDirs: for the db store (C05 known finding F11), the directories whose TOC entry comes after an entry below them
+// (so that the directory had already been created implicitly), counted per parent directory.
+func lateDirs(toc []estargz.VerifTOCEntryC02) map[string]int {
+	out := map[string]int{}
+	created := map[string]bool{"": true}
+	for _, e := range toc {
+		if e.Type == "chunk" {
+			continue
+		}
+		if e.Type == "dir" && e.Name != "" && created[e.Name] {
+			out[parentOf(e.Name)]++
+		}
+		for q := e.Name; ; q = parentOf(q) {
+			created[q] = true
+			if q == "" {
+				break
+			}
+		}
+	}
+	return out
 }
